@@ -34,7 +34,7 @@ CFG = {
                   "structure of schema vs rule along the value + leaf ranges) is emitted as bytes the validator accepts - one generic "
                   "proof. The value-INDEPENDENT form (refines s r) is kept as C03_full and is not provable for these schemas (lower "
                   "bounds are not expressible in the schema language).",
-    "theorems": ["C03_wellformed", "C03_canonical", "C03_canonical_ledger", "C03_canonical_ledger_more", "C03_sets", "C03_set_site", "C03_tables", "C03_bytes_of_tree", "C03_fuel_monotone", "C03_conforms", "C03_conforms_conway", "C03_mint_int64_refuted", "C03_conforms_partial", "C03_builder_no_zero_assets", "C03_add_change_no_zero_assets", "C03_add_change_echo_fixed", "C03_stored_amounts_pos"],
+    "theorems": ["C03_wellformed", "C03_canonical", "C03_canonical_ledger", "C03_canonical_ledger_more", "C03_sets", "C03_set_site", "C03_tables", "C03_bytes_of_tree", "C03_fuel_monotone", "C03_conforms", "C03_conforms_conway", "C03_refines_sound", "C03_refines_pairs", "C03_mint_int64_refuted", "C03_praos_header_flat_refuted", "C03_conforms_partial", "C03_builder_no_zero_assets", "C03_add_change_no_zero_assets", "C03_builder_histories_no_zero_assets", "C03_builder_reachable_states", "C03_add_change_echo_fixed", "C03_stored_amounts_pos"],
     "allowed_axioms": [],
     "compare": _compare,
     "nontrivial": _nontrivial,
